@@ -1,11 +1,610 @@
-use vcommon::*;
+//! C29 — the relayer records every DA block's events exactly once, ordered by log
+//! index, no height skipped or written twice, synced height never decreasing, for any
+//! page-size adaptation and RPC failure pattern.
+//!
+//! The *production* relayer (`fuel_core_relayer::new_service`, i.e. `QuorumProvider`
+//! over HTTP JSON-RPC, adaptive page sizer, retry-on-error run loop) talks to a
+//! harness DA node (`node.rs`: generated logs per DA block, finalized head advancing
+//! in steps, scripted RPC failures) and writes through the real relayer storage code
+//! into a real in-memory `Database<Relayer>`, wrapped at the `RelayerDb` port so that
+//! every write per height is observed (`RecDb`).
+
+mod node;
+
+use fuel_core::database::{
+    Database,
+    database_description::relayer::Relayer,
+};
+use fuel_core_relayer::{
+    Config,
+    ports::RelayerDb,
+    storage::EventsHistory,
+};
+use fuel_core_services::Service as _;
+use fuel_core_storage::{
+    Result as StorageResult,
+    StorageAsRef,
+    iter::IteratorOverTable,
+};
+use fuel_core_types::{
+    blockchain::primitives::DaBlockHeight,
+    services::relayer::Event,
+};
+use node::*;
+use rand::Rng;
+use std::{
+    sync::{
+        Arc,
+        Mutex,
+        atomic::{
+            AtomicU64,
+            Ordering,
+        },
+    },
+    time::Duration,
+};
+use vcommon::{
+    serde_json::{
+        Value,
+        json,
+    },
+    *,
+};
+
+// ------------------------------------------------------------------ RelayerDb wrapper
+
+#[derive(Clone, Debug)]
+pub struct InsertRec {
+    pub height: u64,
+    pub n_events: usize,
+    pub db_height_before: Option<u64>,
+    pub injected: bool,
+    pub ok: bool,
+}
+
+#[derive(Default)]
+pub struct DbCtl {
+    pub inserts: Mutex<Vec<InsertRec>>,
+    /// fail every n-th insert (0 = never)
+    pub fail_every: AtomicU64,
+    pub calls: AtomicU64,
+    pub synced_samples: Mutex<Vec<u64>>,
+    pub shared: Mutex<Option<fuel_core_relayer::SharedState>>,
+}
+
+impl DbCtl {
+    pub fn sample_synced(&self) {
+        if let Some(s) = self.shared.lock().unwrap().as_ref() {
+            let h: u64 = s.get_finalized_da_height().into();
+            let mut g = self.synced_samples.lock().unwrap();
+            if g.last() != Some(&h) {
+                g.push(h);
+            }
+        }
+    }
+}
+
+#[derive(Clone)]
+pub struct RecDb {
+    inner: Database<Relayer>,
+    ctl: Arc<DbCtl>,
+}
+
+impl RelayerDb for RecDb {
+    fn insert_events(&mut self, da_height: &DaBlockHeight, events: &[Event]) -> StorageResult<()> {
+        self.ctl.sample_synced();
+        let n = self.ctl.calls.fetch_add(1, Ordering::SeqCst) + 1;
+        let before = RelayerDb::get_finalized_da_height(&self.inner).map(u64::from);
+        let every = self.ctl.fail_every.load(Ordering::SeqCst);
+        if every > 0 && n % every == 0 {
+            self.ctl.inserts.lock().unwrap().push(InsertRec {
+                height: da_height.0,
+                n_events: events.len(),
+                db_height_before: before,
+                injected: true,
+                ok: false,
+            });
+            return Err(anyhow::anyhow!("injected storage failure").into());
+        }
+        // the real relayer storage code over the real database
+        let r = RelayerDb::insert_events(&mut self.inner, da_height, events);
+        self.ctl.inserts.lock().unwrap().push(InsertRec {
+            height: da_height.0,
+            n_events: events.len(),
+            db_height_before: before,
+            injected: false,
+            ok: r.is_ok(),
+        });
+        r
+    }
+
+    fn get_finalized_da_height(&self) -> Option<DaBlockHeight> {
+        RelayerDb::get_finalized_da_height(&self.inner)
+    }
+}
+
+// ------------------------------------------------------------------ one case
+
+struct CaseCfg {
+    deploy: u64,
+    page: u64,
+    max_logs: u64,
+    fault: u32,
+    heads: Vec<u64>,
+    restarts: Vec<usize>,
+    fail_every: u64,
+    heavy: bool,
+}
+
+fn gen_case(args: &Args, rng: &mut rand::rngs::StdRng) -> CaseCfg {
+    let deploy = *pick(rng, &[0u64, 0, 1, 5, 100]);
+    let page = rng.gen_range(1..=7u64);
+    let long = chance(rng, 25);
+    let max_logs = *pick(rng, &[2u64, 4, 8, 10_000]);
+    let fault = if long { *pick(rng, &[0u32, 3]) } else { *pick(rng, &[0u32, 10, 25, 40]) };
+    let span = if long {
+        rng.gen_range(150..=args.by_tier(260u64, 500))
+    } else {
+        rng.gen_range(8..=60)
+    };
+    let n_steps = rng.gen_range(2..=5usize);
+    let mut heads: Vec<u64> = (0..n_steps).map(|_| deploy + rng.gen_range(0..=span)).collect();
+    heads.push(deploy + span);
+    heads.sort();
+    heads.dedup();
+    let restarts = (0..heads.len()).filter(|_| chance(rng, 25)).collect();
+    CaseCfg {
+        deploy,
+        page,
+        max_logs,
+        fault,
+        heads,
+        restarts,
+        fail_every: *pick(rng, &[0u64, 0, 0, 7, 23]),
+        heavy: chance(rng, 40),
+    }
+}
+
+fn run_case(args: &Args, report: &Report, cs: u64) {
+    let mut rng = rng_for(cs, &[0]);
+    let cfg = gen_case(args, &mut rng);
+    let last_head = *cfg.heads.last().unwrap();
+    let st: u32 = args.extra.get("selftest").and_then(|s| s.parse().ok()).unwrap_or(0);
+    let sig = |s: &str| if st > 0 { format!("selftest:{s}") } else { s.to_string() };
+
+    let node = Arc::new(DaNode::generate(cs, cfg.deploy, last_head + 12, cfg.fault, cfg.heavy, cfg.max_logs));
+    let db = Database::<Relayer>::in_memory();
+    let ctl = Arc::new(DbCtl::default());
+    ctl.fail_every.store(cfg.fail_every, Ordering::SeqCst);
+    let rec = RecDb {
+        inner: db.clone(),
+        ctl: ctl.clone(),
+    };
+
+    let rt = tokio::runtime::Builder::new_current_thread().enable_all().build().expect("runtime");
+    let mut failure: Option<String> = None;
+    let mut segments = 0u64;
+    let outcome = catch(|| {
+        rt.block_on(async {
+            let addr = match node.clone().serve().await {
+                Ok(a) => a,
+                Err(e) => {
+                    failure = Some(format!("cannot start DA node: {e}"));
+                    return;
+                }
+            };
+            let config = Config {
+                da_deploy_height: cfg.deploy.into(),
+                relayer: Some(vec![url::Url::parse(&format!("http://{addr}")).unwrap()]),
+                eth_v2_listening_contracts: vec![contract_address()],
+                log_page_size: cfg.page,
+                max_logs_per_rpc: cfg.max_logs,
+                sync_minimum_duration: Duration::from_millis(1),
+                syncing_call_frequency: Duration::from_millis(1),
+                syncing_log_frequency: Duration::from_secs(60),
+                metrics: false,
+            };
+            let mut service = None;
+            for (i, head) in cfg.heads.iter().enumerate() {
+                if service.is_none() {
+                    let s = match fuel_core_relayer::new_service(rec.clone(), config.clone()) {
+                        Ok(s) => s,
+                        Err(e) => {
+                            failure = Some(format!("new_service: {e}"));
+                            return;
+                        }
+                    };
+                    *ctl.shared.lock().unwrap() = Some(s.shared.clone());
+                    ctl.sample_synced();
+                    if let Err(e) = s.start_and_await().await {
+                        failure = Some(format!("start: {e}"));
+                        return;
+                    }
+                    segments += 1;
+                    service = Some(s);
+                }
+                node.set_head(*head);
+                let s = service.as_ref().unwrap();
+                if cfg.restarts.contains(&i) {
+                    // stop in the middle of the sync: wait for a little progress (bounded), then stop
+                    let target = ctl.calls.load(Ordering::SeqCst) + 3;
+                    for _ in 0..200 {
+                        if ctl.calls.load(Ordering::SeqCst) >= target {
+                            break;
+                        }
+                        tokio::time::sleep(Duration::from_micros(300)).await;
+                    }
+                    ctl.sample_synced();
+                    let _ = s.stop_and_await().await;
+                    ctl.sample_synced();
+                    service = None;
+                    continue;
+                }
+                let wait = tokio::time::timeout(Duration::from_secs(25), s.shared.await_at_least_synced(&(*head).into())).await;
+                ctl.sample_synced();
+                match wait {
+                    Ok(Ok(())) => {}
+                    Ok(Err(e)) => {
+                        failure = Some(format!("await_at_least_synced({head}): {e}"));
+                        return;
+                    }
+                    Err(_) => {
+                        failure = Some(format!(
+                            "watchdog: relayer did not reach DA height {head} within 25 s (synced {:?})",
+                            ctl.synced_samples.lock().unwrap().last()
+                        ));
+                        return;
+                    }
+                }
+                // judged while the service keeps running: everything up to the announced height
+                let synced: u64 = s.shared.get_finalized_da_height().into();
+                check_stored(report, &sig, cs, &node, &db, cfg.deploy.max(1), synced, "while_running");
+            }
+            // final segment: make sure a service runs to the last head
+            if service.is_none() {
+                if let Ok(s) = fuel_core_relayer::new_service(rec.clone(), config.clone()) {
+                    *ctl.shared.lock().unwrap() = Some(s.shared.clone());
+                    ctl.sample_synced();
+                    let _ = s.start_and_await().await;
+                    segments += 1;
+                    service = Some(s);
+                }
+            }
+            if let Some(s) = service.as_ref() {
+                let wait =
+                    tokio::time::timeout(Duration::from_secs(25), s.shared.await_at_least_synced(&last_head.into())).await;
+                ctl.sample_synced();
+                if !matches!(wait, Ok(Ok(()))) {
+                    failure = Some(format!("watchdog: relayer did not reach the last DA height {last_head} within 25 s"));
+                }
+                let _ = s.stop_and_await().await;
+                ctl.sample_synced();
+            }
+        })
+    });
+    drop(rt);
+    if let Err(p) = outcome {
+        report.inconclusive(format!("case {cs}: harness panic: {p}"));
+        return;
+    }
+    report.count("cases");
+    report.add("segments", segments);
+    if let Some(f) = failure {
+        if f.starts_with("watchdog") {
+            report.count("cases.watchdog");
+        }
+        report.inconclusive(format!("case {cs}: {f}"));
+        // still judge what was written
+    }
+
+    // ------------------------------------------------------------ oracle at quiescence
+    report.eval();
+    let mut inserts = ctl.inserts.lock().unwrap().clone();
+    let mut samples = ctl.synced_samples.lock().unwrap().clone();
+    if st == 2 && inserts.len() > 3 {
+        let d = inserts[2].clone();
+        inserts.insert(3, d);
+    }
+    if st == 3 && samples.len() > 2 {
+        let l = samples.len();
+        samples.swap(l - 1, l - 2);
+    }
+    let reqs = node.requests();
+    // with deploy height 0 the relayer regards DA block 0 (the DA genesis) as already seen
+    let first = cfg.deploy.max(1);
+    // (a) every attempted / performed write is for the next height
+    let mut written: Option<u64> = None;
+    let mut viol: Vec<(String, String)> = vec![];
+    for r in inserts.iter() {
+        report.count("db.insert_calls");
+        let want = match written {
+            None => first,
+            Some(w) => w + 1,
+        };
+        if r.height != want {
+            let kind = if written.map(|w| r.height <= w).unwrap_or(false) {
+                "height_written_twice"
+            } else if r.height > want {
+                "height_skipped"
+            } else {
+                "below_deploy_height"
+            };
+            viol.push((
+                format!("insert_not_next kind={kind}"),
+                format!(
+                    "insert_events called for DA height {} while heights up to {written:?} are stored (deploy height {}); call result ok={}",
+                    r.height, cfg.deploy, r.ok
+                ),
+            ));
+            break;
+        }
+        if r.ok {
+            written = Some(r.height);
+            report.count("db.insert_ok");
+            if r.n_events > 0 {
+                report.count("db.insert_nonempty");
+            }
+        } else if r.injected {
+            report.count("db.insert_injected_failure");
+        } else {
+            report.count("db.insert_rejected");
+        }
+    }
+    // (b) stored content
+    let top = RelayerDb::get_finalized_da_height(&db).map(u64::from);
+    if top != written {
+        viol.push((
+            "db_height_vs_inserts".into(),
+            format!("database DA height {top:?} but the successful insert_events calls end at {written:?}"),
+        ));
+    }
+    if let Some(t) = top {
+        check_stored(report, &sig, cs, &node, &db, first, t, "final");
+        if st == 1 {
+            // corrupt the expectation of one height: the comparison must notice
+            node.corrupt_expectation();
+            check_stored(report, &sig, cs, &node, &db, first, t, "final");
+        }
+    }
+    let keys: Vec<u64> = db
+        .iter_all_keys::<EventsHistory>(None)
+        .filter_map(|k| k.ok())
+        .map(u64::from)
+        .collect();
+    let expect_keys: Vec<u64> = match top {
+        Some(t) => (first..=t).collect(),
+        None => vec![],
+    };
+    if keys != expect_keys {
+        viol.push((
+            "stored_heights_not_contiguous".into(),
+            format!(
+                "EventsHistory holds {} heights {:?}..{:?}, expected every height {}..={top:?}",
+                keys.len(),
+                keys.first(),
+                keys.last(),
+                cfg.deploy
+            ),
+        ));
+    }
+    // (c) nothing beyond what the DA node had finalized at the time of the request
+    if let Some(t) = top {
+        if t > last_head {
+            viol.push((
+                "stored_beyond_finalized_head".into(),
+                format!("stored DA height {t} exceeds the last finalized head {last_head}"),
+            ));
+        }
+    }
+    // (d) announced synced height never decreases and never exceeds what is stored
+    for w in samples.windows(2) {
+        if w[1] < w[0] {
+            viol.push(("synced_height_decreased".into(), format!("announced synced height went {} -> {}", w[0], w[1])));
+            break;
+        }
+    }
+    report.add("synced.samples", samples.len() as u64);
+    if let (Some(s), t) = (samples.iter().max(), top) {
+        let floor = cfg.deploy.saturating_sub(1);
+        if *s > floor && Some(*s) > t {
+            viol.push((
+                "synced_beyond_stored".into(),
+                format!("announced synced height {s} but the database only holds heights up to {t:?}"),
+            ));
+        }
+    }
+    // ------------------------------------------------------------ evidence
+    let mut shrinks = 0u64;
+    let mut grows = 0u64;
+    let mut prev_len: Option<u64> = None;
+    let mut prev_to: Option<u64> = None;
+    let mut ok_streak = 0u64;
+    for r in reqs.iter() {
+        report.count(&format!("rpc.{}.{}", r.method, r.behaviour));
+        if r.method == "getLogs" {
+            let len = r.to - r.from + 1;
+            report.count(&format!("page_len.{}", len.min(9)));
+            if let (Some(pl), Some(pt)) = (prev_len, prev_to) {
+                // only consecutive pages of one stream are comparable, and not the clipped last page
+                if r.from == pt + 1 && r.to < r.head {
+                    if len < pl {
+                        shrinks += 1;
+                    } else if len > pl {
+                        grows += 1;
+                    }
+                }
+            }
+            if r.behaviour.starts_with("ok") {
+                ok_streak += 1;
+                prev_len = Some(len);
+                prev_to = Some(r.to);
+            } else {
+                ok_streak = 0;
+                prev_len = Some(len);
+                prev_to = Some(r.from.saturating_sub(1));
+            }
+        }
+    }
+    let _ = ok_streak;
+    report.add("pager.shrinks_seen", shrinks);
+    report.add("pager.grows_seen", grows);
+    if segments > 1 {
+        report.count("cases.with_restart");
+    }
+    let had_rpc_fail = reqs.iter().any(|r| !r.behaviour.starts_with("ok"));
+    if had_rpc_fail {
+        report.count("cases.with_rpc_failure");
+    }
+    if (shrinks > 0 || grows > 0) && (had_rpc_fail || segments > 1) && written.is_some() {
+        let shape: Vec<(u64, u64, bool)> = reqs
+            .iter()
+            .filter(|r| r.method == "getLogs")
+            .map(|r| (r.from - cfg.deploy, r.to - r.from, r.behaviour.starts_with("ok")))
+            .collect();
+        report.distinct(&(cfg.page, cfg.max_logs, &shape));
+    }
+    if report.wants_sample() && had_rpc_fail {
+        report.sample(json!({"case_seed": cs, "deploy_height": cfg.deploy, "page_size": cfg.page, "max_logs_per_rpc": cfg.max_logs,
+            "heads": cfg.heads, "restart_at_steps": cfg.restarts, "fault_percent": cfg.fault, "storage_fail_every": cfg.fail_every,
+            "requests": reqs.iter().take(30).map(|r| r.json()).collect::<Vec<_>>(),
+            "inserted_heights": inserts.len()}));
+    }
+    if !viol.is_empty() {
+        let rj: Vec<Value> = reqs.iter().take(300).map(|r| r.json()).collect();
+        for (s, d) in viol {
+            report.violation(
+                sig(&s),
+                format!(
+                    "{d}\ncase: deploy {}, page size {}, max logs/rpc {}, heads {:?}, restarts at steps {:?}, rpc fault {}%, storage failure every {}",
+                    cfg.deploy, cfg.page, cfg.max_logs, cfg.heads, cfg.restarts, cfg.fault, cfg.fail_every
+                ),
+                json!({"case_seed": cs, "requests": rj}),
+            );
+        }
+    }
+}
+
+#[allow(clippy::too_many_arguments)]
+fn check_stored(
+    report: &Report,
+    sig: &dyn Fn(&str) -> String,
+    cs: u64,
+    node: &DaNode,
+    db: &Database<Relayer>,
+    deploy: u64,
+    upto: u64,
+    when: &str,
+) {
+    if upto < deploy {
+        return;
+    }
+    for h in deploy..=upto {
+        report.count("heights_compared");
+        let stored: Option<Vec<Event>> = db
+            .storage::<EventsHistory>()
+            .get(&DaBlockHeight(h))
+            .ok()
+            .flatten()
+            .map(|c| c.into_owned());
+        let want = node.expected_events(h);
+        if !want.is_empty() {
+            report.count("heights_compared.nonempty");
+        }
+        match stored {
+            None => {
+                report.violation(
+                    sig("height_missing_below_synced"),
+                    format!("DA height {h} <= synced/stored height {upto} has no EventsHistory entry ({when})"),
+                    json!({"case_seed": cs}),
+                );
+                return;
+            }
+            Some(got) if got != want => {
+                let mut a: Vec<String> = got.iter().map(|e| format!("{:?}", e.hash())).collect();
+                let mut b: Vec<String> = want.iter().map(|e| format!("{:?}", e.hash())).collect();
+                let kind = if got.len() == want.len() && {
+                    a.sort();
+                    b.sort();
+                    a == b
+                } {
+                    "wrong_order"
+                } else if got.len() != want.len() {
+                    "wrong_set"
+                } else {
+                    "wrong_content"
+                };
+                report.violation(
+                    sig(&format!("stored_events_differ kind={kind}")),
+                    format!(
+                        "DA height {h}: stored {} events, the DA node reported {} fuel events for the finalized block ({when})",
+                        got.len(),
+                        want.len()
+                    ),
+                    json!({"case_seed": cs, "height": h}),
+                );
+                return;
+            }
+            _ => {}
+        }
+    }
+}
 
 fn main() {
     let args = Args::parse();
     install_quiet_panic_hook();
     let report = Report::new(&args.property);
+    let mut rule = String::new();
+    let mut assumptions: Vec<&str> = vec![];
     match args.property.as_str() {
+        "C29" => {
+            if let Some(rep) = read_replay(&args) {
+                let cs = rep.get("case_seed").and_then(|v| v.as_u64()).unwrap_or(0);
+                run_case(&args, &report, cs);
+            } else {
+                let shards = args.by_tier(32usize, 64);
+                let per = args.by_tier(36usize, 400);
+                let a = args.clone();
+                let r = report.clone();
+                run_shards(&report, &args, shards, move |_i, s| {
+                    for it in 0..per {
+                        run_case(&a, &r, mix(s, &[it as u64]));
+                    }
+                });
+                if !args.extra.contains_key("selftest") {
+                    let q = !args.is_thorough();
+                    report.require("cases", if q { 800 } else { 15_000 });
+                    report.require("db.insert_ok", if q { 40_000 } else { 800_000 });
+                    report.require("db.insert_nonempty", if q { 15_000 } else { 300_000 });
+                    report.require("heights_compared.nonempty", if q { 40_000 } else { 800_000 });
+                    report.require("cases.with_restart", 50);
+                    report.require("cases.with_rpc_failure", 100);
+                    report.require("pager.shrinks_seen", 100);
+                    report.require("pager.grows_seen", 20);
+                    report.require("rpc.getLogs.ok_too_many_logs", 100);
+                    report.require("rpc.getLogs.rpc_error_too_many", 50);
+                    report.require("rpc.getLogs.http_500", 50);
+                    report.require("rpc.getLogs.garbage_body", 30);
+                    report.require("rpc.getBlock.rpc_error", 20);
+                    report.require("rpc.getBlock.null_result", 20);
+                    report.require("rpc.syncing.syncing_info", 20);
+                    report.require("db.insert_injected_failure", 50);
+                }
+            }
+            rule = "a case = generated DA log set (messages, forced transactions, foreign-topic and foreign-contract logs, \
+                    shuffled in every response, an extra bogus log on not-yet-finalized blocks), deploy height, page size \
+                    1..7, max-logs-per-rpc, 2..6 finalized-head steps, restarts mid-sync, scripted RPC failures per request \
+                    and storage failures every n-th insert; non-trivial = the page size was seen to change and an RPC \
+                    failure or restart happened; distinct = (page size, max logs, sequence of (offset, length, ok) of the \
+                    eth_getLogs requests)."
+                .to_string();
+            assumptions = vec![
+                "the harness DA node answers eth_getLogs / eth_getBlockByNumber(finalized) / eth_syncing over HTTP like a real node (filter by block range, contract address, topic0)",
+                "expected fuel events are built from the generator's fields, not by the relayer's log parser",
+                "reads of EventsHistory through Database<Relayer> are trusted",
+                "a relayer that stops making progress is reported inconclusive (watchdog), not as a violation",
+            ];
+        }
         other => report.inconclusive(format!("property {other} not implemented in this monitor")),
     }
-    report.finish(&args, "exploration", "", false, &[]);
+    report.finish(&args, "exploration", &rule, false, &assumptions);
 }
